@@ -4,6 +4,8 @@
   (`schema_paths`: the container keys walked from the document root)
 * json_schema_data_formats (runtime): type → format → Types member
 * the keys and the literal truth values `validate_exclusive_maximum_and_exclusive_minimum` looks at (ast)
+* the shape of the loop of `JsonSchemaParser._parse_file` over `schema_paths` that collects the named schemas,
+  and of the loops that consume what it collected (ast)
 """
 from __future__ import annotations
 
@@ -76,6 +78,62 @@ def bounds_steps() -> list[tuple[str, str, str]]:
     return out
 
 
+def _one_line(stmts: list[ast.stmt]) -> str:
+    return "; ".join(" ".join(ast.unparse(s).split()) for s in stmts)
+
+
+def container_loop() -> list[str]:
+    """The loop `for … in self.schema_paths:` of `_parse_file`, one entry per statement of its body (a `try` gives
+    one entry for its body and one per handler; anything with an else/finally part is marked `?`), followed by
+    one entry per later loop over what it collected (`definitions`): its header, the assignments to `path` and the
+    `self.parse_*` calls inside it, in source order."""
+    tree = ast.parse(SRC.read_text())
+    fn = next(n for n in ast.walk(tree) if isinstance(n, ast.FunctionDef) and n.name == "_parse_file")
+    loops = [n for n in ast.walk(fn) if isinstance(n, ast.For)]
+    loops.sort(key=lambda n: n.lineno)
+    walk = [n for n in loops if ast.unparse(n.iter) == "self.schema_paths"]
+    if len(walk) != 1:
+        return [f"? {len(walk)} loops over self.schema_paths"]
+    loop = walk[0]
+    out = [f"for {ast.unparse(loop.target)} in {ast.unparse(loop.iter)}:"]
+    if loop.orelse:
+        out.append("? else: " + _one_line(loop.orelse))
+    for st in loop.body:
+        if isinstance(st, ast.Try):
+            out.append("try: " + _one_line(st.body))
+            for h in st.handlers:
+                out.append(f"except {ast.unparse(h.type) if h.type else ''}: " + _one_line(h.body))
+            if st.orelse or st.finalbody:
+                out.append("? try-else/finally: " + _one_line(st.orelse + st.finalbody))
+        elif isinstance(st, ast.If):
+            out.append(f"if {ast.unparse(st.test)}: " + _one_line(st.body))
+            if st.orelse:
+                out.append("else: " + _one_line(st.orelse))
+        else:
+            out.append(_one_line([st]))
+
+    def uses(n: ast.For) -> list[str]:
+        got: list[str] = []
+
+        def visit(x: ast.AST) -> None:
+            if isinstance(x, ast.Assign) and [ast.unparse(t) for t in x.targets] == ["path"]:
+                got.append(_one_line([x]))
+            elif isinstance(x, ast.Expr) and isinstance(x.value, ast.Call) and ast.unparse(x.value.func).startswith("self.parse_"):
+                got.append(_one_line([x]))
+            else:
+                for c in ast.iter_child_nodes(x):
+                    visit(c)
+
+        for b in n.body:
+            visit(b)
+        return got
+
+    for n in loops:
+        if n.lineno > loop.lineno and any(isinstance(x, ast.Name) and x.id == "definitions" for x in ast.walk(n.iter)):
+            out.append(f"for {ast.unparse(n.target)} in {ast.unparse(n.iter)}: " + "; ".join(uses(n)))
+    return out
+
+
 def _strs(xs) -> str:
     return "[" + ", ".join(lean_string(x) for x in xs) + "]"
 
@@ -94,6 +152,12 @@ def generate() -> str:
         "/-- branches of validate_exclusive_maximum_and_exclusive_minimum in source order:\n"
         "(keyword, literal compared by `is`, action) -/\n"
         f"def boundsSteps : List (String × String × String) :=\n  [{steps}]\n"
+    )
+    loop = table(container_loop, ["? unrecognised shape of _parse_file"])
+    out.append(
+        "/-- the loop of JsonSchemaParser._parse_file over `schema_paths` (one entry per statement) and the later\n"
+        "loops over the list it fills (header, assignments to `path`, `self.parse_*` calls) -/\n"
+        "def containerLoop : List String :=\n  [" + ",\n   ".join(lean_string(x) for x in loop) + "]\n"
     )
     out.append("end Dcg.Gen.Formats")
     return "\n".join(out) + "\n"
